@@ -78,5 +78,9 @@ func Verif_C09_RpmScripts() {
 // Verif_C08_RpmFlags: every entry type gets exactly its rpm file flag (config / noreplace / missingok / ghost).
 func Verif_C08_RpmFlags() { verifRpmPayload(scen.Options{SymType: true, Second: -2}) }
 
+// Verif_C08_RpmGhostMode: a ghost without a mode of its own is listed with 0644
+// whatever the umask (all 32-bit umasks), with the ghost flag and no payload.
+func Verif_C08_RpmGhostMode() { verifRpmPayload(scen.Options{SymModes: true, Second: 4}) }
+
 // Verif_C08_RpmDocFlags: doc, licence/license and readme entries carry exactly their flag (and exist only in rpm).
 func Verif_C08_RpmDocFlags() { verifRpmPayload(scen.Options{Second: -3}) }
